@@ -108,7 +108,7 @@ def gen_net(rng):
     # alias: lanelets that list the same signs / lights are constructed with ONE Python set object (Lanelet keeps the
     # caller's set): e.g. approach_lights = {30, 31} handed to both lanelets of an approach
     return {"lanelets": lanelets, "signs": sign_ids, "lights": light_ids, "inters": inters,
-            "alias": rng.random() < 0.25}
+            "alias": rng.random() < 0.25, "moved": rng.choice([0, 0, 0, 0, 1, 2, 3])}
 
 
 def cell_box(cell):
@@ -214,8 +214,15 @@ def build(spec):
         net.add_traffic_light(TrafficLight(t, np.array([float(t), 2.0]), TrafficLightCycle(
             [TrafficLightCycleElement(TrafficLightState.RED, 1 + t % 5), TrafficLightCycleElement(TrafficLightState.GREEN, 3)])),
             set())
+    moved = []
     for la in spec["lanelets"]:
-        x0, y0, x1, y1 = cell_box(la["cell"])
+        cell = la["cell"]
+        if spec.get("moved") and la["id"] % 3 == spec["moved"] % 3:
+            # this lanelet is built one grid row away and, once it is in the network, moved to its cell through
+            # Lanelet.translate_rotate (whole-cell offsets are exact): selections go by where the lanelet IS
+            cell = [la["cell"][0], la["cell"][1] + 7]
+            moved.append((la["id"], np.array([0.0, -7.0 * PY])))
+        x0, y0, x1, y1 = cell_box(cell)
         left = np.array([[x0, y1], [x1, y1]])
         right = np.array([[x0, y0], [x1, y0]])
         stop = None
@@ -238,6 +245,8 @@ def build(spec):
             IntersectionIncomingElement(i["id"], set(i["lanelets"]), set(i["right"]), set(i["straight"]), set(i["left"]),
                                         i["left_of"]) for i in x["incs"]], set(x["cross"])))
     net._create_strtree()
+    for lid, delta in moved:
+        net.find_lanelet_by_id(lid).translate_rotate(delta, 0.0)
     return net
 
 
